@@ -23,6 +23,9 @@ def gen_cases(rnd, tier):
         cases.append(D.gen_chirpseq_case(rnd))
     for i in range(18 * k):
         cases.append(D.gen_toneseq_case(rnd, NS[1:]))
+    # Dask: signals of one geometry but different data (and one signal, two DMs) evaluated in ONE graph
+    for i in range(10 * k):
+        cases.append(D.gen_tonejoint_case(rnd, NS[1:4]))
     for i in range(100 * k):
         c = D.gen_chirpfn_case(rnd, full and i % 4 == 0)
         if i % 100 == 0:
@@ -34,7 +37,7 @@ def gen_cases(rnd, tier):
         if i % 40 == 0:
             c["xcheck"] = rnd.choice(c["bins"])
         cases.append(c)
-    for i in range(50 * k):
+    for i in range(42 * k):
         c = D.gen_bb_case(rnd, "tone", NS[1:])
         c["supplied"] = i % 3 == 0
         cases.append(c)
